@@ -360,12 +360,23 @@ Iter ==
          vWake == IF due = {} \/ ~Ev.alive \/ s.down THEN {}
                   ELSE V("C12.cover", Ev.wake >= 0 /\ Ev.wake <= (CHOOSE d \in due : \A e \in due : d <= e),
                          <<"requested wake-up later than pending time-driven work", Ev.wake, CHOOSE d \in due : \A e \in due : d <= e, T>>)
-     IN /\ viol' = Cap(viol, SpinV \cup s.v \cup vProbe \cup vAnn \cup vBye \cup vOwed \cup vQ \cup vQuiet \cup vWake \cup vRename \cup vNoTake)
+         \* the loop's own bookkeeping when it parks (hook publish_loop): the wake-up is the earliest timer; every queued re-run
+         \* (second announcement, goodbye repeat) has a timer of its own (a re-registration may leave the second announcement of the earlier one queued: one announcement more, allowed)
+         vLoop == IF ~("loop" \in DOMAIN Ev) \/ ~Ev.loop \/ ~Ev.alive THEN {}
+                  ELSE LET tm == Ev.tm
+                           rr == {Ev.rr[j] : j \in 1..Len(Ev.rr)}
+                           hasTimer(t) == (\E j \in 1..Len(tm) : tm[j] = t) \/ (Len(tm) = 40 /\ t > tm[40])
+                       IN V("C12.loop-wake", Ev.wake = (IF Ev.ntm = 0 THEN 0 - 1 ELSE IF tm[1] > T THEN tm[1] ELSE T + 1),
+                            <<"the wake-up asked for is not the earliest timer", Ev.wake, IF Ev.ntm = 0 THEN 0 - 1 ELSE tm[1], T>>)
+                          \cup UNION {V("C12.loop-cover", hasTimer(r.t), <<"a queued re-run without a timer of its own", r.k, r.t, T>>) : r \in rr}
+     IN /\ viol' = Cap(viol, SpinV \cup s.v \cup vProbe \cup vAnn \cup vBye \cup vOwed \cup vQ \cup vQuiet \cup vWake \cup vRename \cup vNoTake \cup vLoop)
         /\ lost' = lost \cup conflictNames
         /\ ncseen' = ncseen \cup ncNow
         /\ compet' = [x \in Dom(compet) \cup competNow |-> IF x \in competNow THEN T ELSE compet[x]]
         /\ reg' = R2 /\ ann' = A2 /\ probes' = P2 /\ owed' = O2 /\ ipint' = s.ipint
         /\ hits' = hits \cup (IF Probe # {} THEN {"C07.probe"} ELSE {})
+                        \cup (IF "loop" \in DOMAIN Ev /\ Ev.loop /\ Ev.ntm > 0 THEN {"C12.loop-wake"} ELSE {})
+                        \cup (IF "loop" \in DOMAIN Ev /\ Ev.loop /\ Len(Ev.rr) > 0 THEN {"C12.loop-cover"} ELSE {})
                         \cup (IF Annc # {} THEN {"C07.announce"} ELSE {})
                         \cup (IF Bye # {} THEN {"C09.goodbye"} ELSE {})
                         \cup (IF dueBye2 # {} THEN {"C09.repeat"} ELSE {})
